@@ -67,6 +67,50 @@ func ConcClassify(point string) string {
 	return ""
 }
 
+// CrossRead: some compose of the program reads, as a source, an object other than its destination
+// that another request of the program writes.  A compose holds the lock of its destination only: it
+// reads its sources, validates, and writes the destination later, so a writer of a source (which
+// takes that other object's lock) can come in between.  The two requests do not target the same
+// object, which is all C07 speaks about, and the outcome need not be one of the one-lock machine
+// (compose{a <- a + b} next to copy{a -> b} can leave a = old a + old b, b = old a: no serial
+// order).  For such a program the compose is not parked between its reads and its write, so that
+// at the granularity of the exploration it stays one step, as in the machine.
+func (p *ConcProgram) CrossRead() bool {
+	target := func(o *Op) (string, bool) {
+		switch o.Kind {
+		case "upload", "patch", "delete", "compose":
+			return o.B + "/" + o.N, true
+		case "copy":
+			return o.B2 + "/" + o.N2, true
+		}
+		return "", false
+	}
+	for i, c := range p.Ops {
+		if c.Kind != "compose" {
+			continue
+		}
+		for _, src := range c.Srcs {
+			if src.Name == c.N {
+				continue
+			}
+			for j, w := range p.Ops {
+				if t, ok := target(w); ok && j != i && t == c.B+"/"+src.Name {
+					return true
+				}
+			}
+		}
+	}
+	return false
+}
+
+// ConcClassifyOneStep is ConcClassify without the parking point between validation and mutation.
+func ConcClassifyOneStep(point string) string {
+	if point == "gcs.validated" {
+		return ""
+	}
+	return ConcClassify(point)
+}
+
 // TearClassify additionally parks a writer between the content write and the sidecar write.
 func TearClassify(point string) string {
 	if point == "fs.add.content-written" || point == "fs.get.meta-read" || point == "fs.getmeta.stat-done" {
